@@ -448,6 +448,10 @@ func evalChain(p ast.Position, scope *stateful.Scope, stck *stack) error {
 				return wrapError(p, err)
 			}
 		}
+		if rd, ok := describer.(*ReflectionDescriber); ok && rd.HasProperty(name) && !rd.hasReadableProperty(name) {
+			// Properties set by property methods cannot be read
+			return errorf(p, "cannot read property %s of object %T, it is set by calling it: .%s(...)", name, l, name)
+		}
 		if describer.HasProperty(name) {
 			stck.Push(describer.Property(name))
 		} else {
@@ -805,6 +809,12 @@ func (r *ReflectionDescriber) HasProperty(name string) bool {
 		return ok
 	}
 	_, ok = r.properties[name]
+	return ok
+}
+
+// hasReadableProperty reports whether the property is backed by a field.
+func (r *ReflectionDescriber) hasReadableProperty(name string) bool {
+	_, ok := r.properties[capitalizeFirst(name)]
 	return ok
 }
 
